@@ -186,8 +186,88 @@ static void sweep(const char* name, std::size_t fence, bool thorough, Rng& g, bo
     }
 }
 
+// C15 (last sentence): "the stateless low-level allocators report their process-wide net once at exit".
+//   subj_lowlevel exit <allocator> <seed>   runs in a child process: a seeded history of node/array allocations and releases
+//   through allocator_traits on copies of the stateless allocator, leaves some nodes unreleased, prints `expect <net>` and
+//   returns from main; the recording leak handler prints `LEAK <allocator name> <amount>` whenever the library calls it.
+static void exit_leak_handler(const allocator_info& info, std::ptrdiff_t amount)
+{
+    std::printf("LEAK %s %lld\n", info.name, (long long)amount);
+    std::fflush(stdout);
+}
+template <class A>
+static int exit_scenario(unsigned long long seed, std::size_t fence_extra)
+{
+    Rng g(seed);
+    set_leak_handler(&exit_leak_handler);
+    using traits = allocator_traits<A>;
+    struct L
+    {
+        void*       p;
+        std::size_t count, size;
+        bool        arr;
+    };
+    std::vector<L> live;
+    long long      net = 0;
+    int            nops = 4 + int(g.below(20));
+    for (int i = 0; i < nops; ++i)
+    {
+        A a; // a fresh copy every time: the count is process wide, not per object
+        if (live.empty() || g.chance(60))
+        {
+            std::size_t size = 1 + g.below(200), count = 1 + g.below(4);
+            bool        arr = g.chance(40);
+            void*       p = arr ? traits::allocate_array(a, count, size, 8) : traits::allocate_node(a, size, 8);
+            live.push_back({p, count, size, arr});
+            net += (long long)((arr ? count * size : size) + fence_extra);
+        }
+        else
+        {
+            std::size_t k = g.below(live.size());
+            L           l = live[k];
+            live.erase(live.begin() + long(k));
+            if (l.arr)
+                traits::deallocate_array(a, l.p, l.count, l.size, 8);
+            else
+                traits::deallocate_node(a, l.p, l.size, 8);
+            net -= (long long)((l.arr ? l.count * l.size : l.size) + fence_extra);
+        }
+    }
+    if (seed % 3 == 0)
+    { // balanced run: everything goes back, nothing may be reported
+        A a;
+        for (auto& l : live)
+        {
+            if (l.arr)
+                traits::deallocate_array(a, l.p, l.count, l.size, 8);
+            else
+                traits::deallocate_node(a, l.p, l.size, 8);
+            net -= (long long)((l.arr ? l.count * l.size : l.size) + fence_extra);
+        }
+        live.clear();
+    }
+    std::printf("expect %lld\n", net);
+    std::fflush(stdout);
+    return 0; // the report, if any, is made after main returns
+}
+
 int main(int argc, char** argv)
 {
+    if (argc > 3 && std::string(argv[1]) == "exit")
+    {
+        std::string        which = argv[2];
+        unsigned long long sd = std::strtoull(argv[3], nullptr, 10);
+        const std::size_t  extra = detail::debug_fence_size ? 2 * detail::max_alignment : 0;
+        if (which == "heap")
+            return exit_scenario<heap_allocator>(sd, extra);
+#if FOONATHAN_HOSTED_IMPLEMENTATION
+        if (which == "malloc")
+            return exit_scenario<malloc_allocator>(sd, extra);
+        if (which == "new")
+            return exit_scenario<new_allocator>(sd, extra);
+#endif
+        return 3;
+    }
     bool               thorough = argc > 1 && std::atoi(argv[1]) != 0;
     unsigned long long seed = argc > 2 ? std::strtoull(argv[2], nullptr, 10) : 1;
     Rng                g(seed);
